@@ -518,6 +518,8 @@ def oracle_buffer(m, spec, res, T):
         d_ = T.disc.get(ev_[2])
         return (d_['layer'] if d_ else None, ev_[3])
     stashed_in = None
+    stash_orig = False
+    last_flags = 3
     foreign_reinstall = False
     for ev in res.trace:
         if ev[0] != 0:
@@ -525,8 +527,11 @@ def oracle_buffer(m, spec, res, T):
         if ev[1] == 'fault':
             if ev[2] == 'stash_stdout':
                 stashed_in = cur
+                # (after a result event of the test the original streams are installed: it is
+                # those that get remembered then, not the capture streams)
+                stash_orig = last_flags == 3
             if ev[2] == 'reinstall_stdout':
-                if stashed_in != cur:
+                if stashed_in != cur or stash_orig:
                     # the stream of ANOTHER result (layer, iteration): a foreign object
                     foreign_reinstall = True
                 if stale != 'forever':
@@ -535,6 +540,7 @@ def oracle_buffer(m, spec, res, T):
             continue
         site = ev[1]
         last_site = site
+        last_flags = ev[4]
         if site == 'test.run':
             cur = result_of(ev)
         if stale is not None:
